@@ -33,6 +33,7 @@ import (
 	exocoreapp "github.com/ExocoreNetwork/exocore/app"
 	assetskeeper "github.com/ExocoreNetwork/exocore/x/assets/keeper"
 	assetstypes "github.com/ExocoreNetwork/exocore/x/assets/types"
+	avstypes "github.com/ExocoreNetwork/exocore/x/avs/types"
 	delegationtypes "github.com/ExocoreNetwork/exocore/x/delegation/types"
 	dogfoodtypes "github.com/ExocoreNetwork/exocore/x/dogfood/types"
 	epochstypes "github.com/ExocoreNetwork/exocore/x/epochs/types"
@@ -63,11 +64,18 @@ type genWorld struct {
 	nextKey  int
 	optOut   map[int]bool // operators that started an opt-out
 	directed string
+	avs2     string       // a second, non-chain AVS (registered lazily) that operators opt into and out of
+	inAVS2   map[int]bool // operators currently opted into avs2
 }
 
 func (w *genWorld) op(op, obs string) {
 	w.env.Op(op, obs)
 	w.hist = append(w.hist, op)
+}
+
+// note records a driving keeper call in the history attached to violations (not an op of the model driver)
+func (w *genWorld) note(f string, a ...interface{}) {
+	w.hist = append(w.hist, fmt.Sprintf("# h=%d ", w.c.Header.Height)+fmt.Sprintf(f, a...))
 }
 
 func (w *genWorld) assetAddr() []byte { return common.HexToAddress(w.c.Cfg.Assets[0].Addr).Bytes() }
@@ -84,6 +92,7 @@ func genErrClass(err error) string {
 
 func (w *genWorld) deposit(si int, amt int64) error {
 	c := w.c
+	w.note("deposit staker=%d amount=%d", si, amt)
 	return c.CachedDo(func(ctx sdk.Context) error {
 		return c.App.AssetsKeeper.PerformDepositOrWithdraw(ctx, &assetskeeper.DepositWithdrawParams{
 			ClientChainLzID: c.LzID, Action: assetstypes.DepositLST, AssetsAddress: w.assetAddr(),
@@ -94,6 +103,7 @@ func (w *genWorld) deposit(si int, amt int64) error {
 
 func (w *genWorld) delegate(si, oi int, amt int64, undelegate bool) error {
 	c := w.c
+	w.note("delegate staker=%d operator=%d amount=%d undelegate=%v", si, oi, amt, undelegate)
 	w.nonce++
 	p := &delegationtypes.DelegationOrUndelegationParams{
 		ClientChainID: c.LzID, Action: assetstypes.DelegateTo, AssetsAddress: w.assetAddr(),
@@ -109,8 +119,58 @@ func (w *genWorld) delegate(si, oi int, amt int64, undelegate bool) error {
 	})
 }
 
+// ensureAVS2 registers a task-type AVS owned by the funded account (hour epochs, first asset).
+func (w *genWorld) ensureAVS2() error {
+	if w.avs2 != "" {
+		return nil
+	}
+	c := w.c
+	addr := common.BytesToAddress(detBytes(c.Cfg.Seed, "avs2", 0)[:20]).String()
+	err := c.CachedDo(func(ctx sdk.Context) error {
+		return c.App.AVSManagerKeeper.UpdateAVSInfo(ctx, &avstypes.AVSRegisterOrDeregisterParams{
+			AvsName: "second", AvsAddress: addr, SlashContractAddr: addr, RewardContractAddr: addr,
+			AvsOwnerAddress: []string{c.Funded.Acc.String()}, AssetID: []string{c.AssetIDs[0]}, UnbondingPeriod: 2, MinSelfDelegation: 0,
+			EpochIdentifier: c.Cfg.EpochID, MinOptInOperators: 1, MinTotalStakeAmount: 1, AvsReward: 10, AvsSlash: 10,
+			CallerAddress: c.Funded.Acc.String(), Action: 1, // avskeeper.RegisterAction
+		})
+	})
+	if err == nil {
+		w.avs2 = addr
+		w.inAVS2 = map[int]bool{}
+	}
+	return err
+}
+
+// optInOut opts operator oi into the second AVS and out again: in the same block (the opted-in and opted-out heights of
+// the stored OptedInfo are then EQUAL and the entry is never deleted) or one block later (control).
+func (w *genWorld) optInOut(oi int, sameBlock bool) (errIn, errOut error) {
+	c := w.c
+	if err := w.ensureAVS2(); err != nil {
+		return err, nil
+	}
+	w.note("opt-in operator=%d avs=%s then opt-out sameBlock=%v", oi, w.avs2, sameBlock)
+	if !w.inAVS2[oi] {
+		errIn = c.CachedDo(func(ctx sdk.Context) error { return c.App.OperatorKeeper.OptIn(ctx, c.Operators[oi].Acc, w.avs2) })
+		if errIn != nil {
+			return errIn, nil
+		}
+		w.inAVS2[oi] = true
+	}
+	if !sameBlock {
+		if r := c.EndAndBegin(time.Second); r.Halt != "" {
+			return nil, fmt.Errorf("halt: %s", r.Halt)
+		}
+	}
+	errOut = c.CachedDo(func(ctx sdk.Context) error { return c.App.OperatorKeeper.OptOut(ctx, c.Operators[oi].Acc, w.avs2) })
+	if errOut == nil {
+		w.inAVS2[oi] = false
+	}
+	return nil, errOut
+}
+
 func (w *genWorld) replaceKey(oi int) error {
 	c := w.c
+	w.note("replace-consensus-key operator=%d", oi)
 	w.nextKey++
 	k, _ := NewConsKey(c.Cfg.Seed, "newcons", w.nextKey)
 	return c.CachedDo(func(ctx sdk.Context) error {
